@@ -71,9 +71,13 @@ def _api(ti, tsi, latent, di, fail=False):
 
 
 with NoTracing():
-    SOLO = {(ti, tsi, lat, di): _api(ti, tsi, lat, di) for ti in range(len(POOL)) for tsi in range(len(TS_POOL))
-            for lat in (True, False) for di in range(len(DEPTHS))}
+    _KEYS = [(ti, tsi, lat, di) for ti in range(len(POOL)) for tsi in range(len(TS_POOL)) for lat in (True, False) for di in range(len(DEPTHS))]
     SNAP0 = _snapshot()
+    # the reference results are themselves computed in this process: they are computed twice, in
+    # opposite orders; any dependence of a result on what was parsed before shows as a difference
+    SOLO = {k: _api(*k) for k in _KEYS}
+    SOLO_R = {k: _api(*k) for k in reversed(_KEYS)}
+    ORDER_DIFF = [k for k in _KEYS if SOLO[k] != SOLO_R[k]]
 
 
 def _pick(x, n):
@@ -111,7 +115,14 @@ def ob_api_history(w_ti: int, w_ts: int, w_lat: bool, w_d: int, abandon: int, ti
             except Exception:
                 pass
         got = _api(*b)
-        return got == SOLO[b] and _snapshot() == SNAP0
+        return not ORDER_DIFF and got == SOLO[b] and _snapshot() == SNAP0
+
+
+def why_api_history(w_ti, w_ts, w_lat, w_d, abandon, ti, tsi, lat, di):
+    if ORDER_DIFF:
+        k = ORDER_DIFF[0]
+        return "result of %r depends on what was parsed before: %r vs %r" % (POOL[k[0]], SOLO[k], SOLO_R[k])
+    return "result after an earlier call differs from the solo result, or a global table changed"
 
 
 # ------------------------------------------------------------------ MODEL-FRAME
